@@ -1,6 +1,7 @@
 (* C08 — effective addresses are formed as the manual defines, modulo 2^24. *)
 From Coq Require Import Bool ZArith List.
 From K Require Import Lib.Types Model.Machine Model.Bus Model.Addressing Model.Exec Spec.ISA Proofs.RegProofs Proofs.EaProofs.
+From K Require Import Model.Cost Model.Alu Model.Exec Proofs.MemProofs Proofs.CtlProofs Proofs.StcProofs.
 Open Scope Z_scope.
 
 Theorem ea_register_indirect :
@@ -31,6 +32,25 @@ Proof. exact ea_update_dec. Qed.
 Example c08_example : get_addr_abs16 0x8000 = 0xff8000 /\ sx 24 0x800000 = -8388608.
 Proof. split; vm_compute; reflexivity. Qed.
 
+(* STC.W CCR,@ERd: the CCR word is stored at the low 24 bits of ERd, nothing else changes *)
+Theorem stc_register_indirect :
+  forall op op2 s, 0 <= ccr s < 256 ->
+    let r := Z.land (nib op2 3) 7 in
+    run_tag TStcErn op op2 0 s =
+    then_charge (mem_write SW s (ea_addr SW s (EInd r)) (ccr s))
+                (i <- cs KI 2 ;; d <- csa KM 1 (ea_addr SW s (EInd r)) ;; ret (u8add i d)).
+Proof. exact stc_ern_refines_proof. Qed.
+
+(* KNOWN FINDING stc_predec, as a theorem about the code's model: the @-ERd encoding of STC.W stores AT ERd and then adds 2
+   (post-increment) instead of pre-decrementing *)
+Theorem stc_predec_is_postinc :
+  forall op op2 s, 0 <= ccr s < 256 ->
+    let r := Z.land (nib op2 3) 7 in
+    run_tag TStcInc op op2 0 s =
+    then_charge (option_map (fun s1 => set_reg32 s1 r ((reg32 s r + 2) mod 4294967296)) (mem_write SW s (reg32 s r mod A24) (ccr s)))
+                (i <- cs KI 2 ;; d <- csa KM 1 (reg32 s r mod A24) ;; n <- cs KN 2 ;; ret (u8add (u8add i d) n)).
+Proof. exact stc_predec_is_postinc_proof. Qed.
+
 Print Assumptions ea_register_indirect.
 Print Assumptions ea_displacement_16.
 Print Assumptions ea_displacement_24.
@@ -39,3 +59,5 @@ Print Assumptions ea_absolute_16.
 Print Assumptions upper_byte_irrelevant.
 Print Assumptions post_increment_register.
 Print Assumptions pre_decrement_register.
+Print Assumptions stc_register_indirect.
+Print Assumptions stc_predec_is_postinc.
